@@ -150,7 +150,13 @@ type CfgJ struct {
 
 type Case struct {
 	Family  string   `json:"family"`
-	Kind    string   `json:"kind,omitempty"`    // "" = cache history, "lat" = latency history
+	Kind    string   `json:"kind,omitempty"`    // "" = cache history, "lat" = latency history, "clat", "conc"
+	X       *Op      `json:"x,omitempty"`       // conc cases: the call parked at its announce point
+	Y       []Op     `json:"y,omitempty"`       // conc cases: the calls made meanwhile on another goroutine
+	Park    string   `json:"park,omitempty"`    // conc cases: "now" (inside cache.Now) or "cb" (inside the callback)
+	CFeed   []NotiJ  `json:"cfeed,omitempty"`   // conc cases: the whole feed, in callback-entry order
+	CFinal  []TObsJ  `json:"cfinal,omitempty"`  // conc cases: every name at the end
+	CNote   string   `json:"cnote,omitempty"`   // conc cases: parked / blocked / hang
 	Windows []int64  `json:"windows,omitempty"` // latency cases
 	Prec    int64    `json:"prec,omitempty"`    // latency cases: AvgPrecision in ns
 	Cfg     CfgJ     `json:"cfg"`
@@ -1113,6 +1119,10 @@ func (e *emitter) add(c *Case) {
 	}
 	if c.Kind == "clat" {
 		addClatCase(e, c)
+		return
+	}
+	if c.Kind == "conc" {
+		addConcCase(e, c)
 		return
 	}
 	runCase(c)
